@@ -437,7 +437,16 @@ func defaultChild() {
 }
 
 // runDefaultChild starts this binary again with exactly the given OTEL_* variables.
-func runDefaultChild(vars map[string]*string) (*childDump, error) {
+func runDefaultChild(vars map[string]*string) (d *childDump, err error) {
+	for attempt := 0; attempt < 3; attempt++ { // a loaded machine may fail to spawn; never a verdict
+		if d, err = runDefaultChildOnce(vars); err == nil {
+			return d, nil
+		}
+	}
+	return nil, err
+}
+
+func runDefaultChildOnce(vars map[string]*string) (*childDump, error) {
 	cmd := exec.Command(os.Args[0], "default-child")
 	for _, kv := range os.Environ() {
 		if !strings.HasPrefix(kv, "OTEL_") {
@@ -527,7 +536,13 @@ func attrCase(cs map[string]any, got []AKV, adm [][]AKV) map[string]any {
 	if cs["why"] != "attrs" || len(adm) == 0 {
 		return cs
 	}
-	k, w, g := firstDiff(got, adm[len(adm)-1])
+	best := adm[0] // the reading that keeps the most (the other one discards a malformed variable)
+	for _, a := range adm {
+		if len(a) > len(best) {
+			best = a
+		}
+	}
+	k, w, g := firstDiff(got, best)
 	cs["key"], cs["want"], cs["got"] = k, w, g
 	return cs
 }
@@ -666,6 +681,8 @@ type newCase struct {
 // runNewCase executes New(ctx, opts...) under the environment setting and projects the result.
 func runNewCase(c newCase, rep int, pr *probeT) (got ADetOut, ec *envConc, skipped string) {
 	ec = concretizeEnv(c.env, rep)
+	ec.apply() // before any option is constructed: the statement does not say when WithFromEnv reads the environment
+	defer clearEnv()
 	cschema := func(s string) string {
 		switch s {
 		case "sc":
@@ -739,8 +756,6 @@ func runNewCase(c newCase, rep int, pr *probeT) (got ADetOut, ec *envConc, skipp
 			}
 		}
 	}
-	ec.apply()
-	defer clearEnv()
 	r, err := resource.New(context.Background(), opts...)
 	_, inc := project(r, identProj{})
 	got = ADetOut{Attrs: tagAttrs(dumpAttrs(r), ec, pvals, pr.vals), Fails: []int{}, Partials: []int{}, ErrNil: err == nil}
